@@ -99,6 +99,8 @@ class RouteScenario(explore.Scenario):
                 evs.append(('consume', c))
                 if not w.partial[c]:
                     evs.append(('part', c))
+                    if len(w.queues[c]) > 1:
+                        evs.append(('join', c))
         for c in (1, 2):
             if not w.alive[c] or w.partial.get(c):
                 # (a client in the middle of writing a message cannot start
@@ -120,7 +122,7 @@ class RouteScenario(explore.Scenario):
         return evs
 
     def deviation(self, ev):
-        return 1 if ev[0] == 'part' else 0
+        return 1 if ev[0] in ('part', 'join') else 0
 
     # ------------------------------------------------------------------
     def _encode(self, w, c, ti):
@@ -142,6 +144,16 @@ class RouteScenario(explore.Scenario):
         serial = 500 + 4 * ti + c
         body = ['payload-%d' % ti]
         sig = 's'
+        if ti % 3 == 1:
+            # typed contents of variants (what a recipient written with
+            # another library relies on) have to arrive as sent
+            sig = 'sa{sv}v'
+            body += [[['k', R.Var('u', 7)], ['p', R.Var('o', '/a/b')],
+                      ['b', R.Var('y', 200)]],
+                     R.Var('(tg)', [2**40, 'ai'])]
+        elif ti % 3 == 2:
+            sig = 'sux'
+            body += [4000000000, -5]
         if dk == 'bus':
             sig, body = '', []
         raw = R.encode_message(t, serial, f, sig, body, flags=flags,
@@ -204,6 +216,18 @@ class RouteScenario(explore.Scenario):
                                 'messages were delivered although only a '
                                 'prefix of the message had arrived'))
                 return bad
+            if kind == 'join':
+                # one read: the whole head message and the first bytes of
+                # the one queued behind it
+                c = ev[1]
+                raw, meta = w.queues[c].pop(0)
+                raw2, meta2 = w.queues[c][0]
+                cut = 13 if len(raw2) > 20 else 5
+                w.queues[c][0] = (raw2[cut:], meta2)
+                w.partial[c] = True
+                w.peers[c].send_raw(raw + raw2[:cut])
+                got, bad = self._drain(w)
+                return bad + self._check_delivery(w, meta, got)
             if kind == 'consume':
                 c = ev[1]
                 raw, meta = w.queues[c].pop(0)
@@ -482,7 +506,7 @@ def run(ctx):
         'unique name / the bus / none; sender field absent, forged as '
         'another client, or the true name; flag bits) into its outbound '
         'queue; the bus consumes the head of a queue whole or (one '
-        'deviation) only a prefix first; clients 1/2 take over, queue for and '
+        'deviation) only a prefix first, or the head together with a prefix of the message behind it; clients 1/2 take over, queue for and '
         'release the well-known name, add/remove 2 match rules, client 2 disconnects. At '
         'each consumption the messages arriving at every client are parsed '
         'by the strict reference parser and compared with the reference bus '
